@@ -43,6 +43,11 @@ func (w *world) dump() []ab.Rec {
 		if !found {
 			continue
 		}
+		if len(out) >= maxDump {
+			// far more pages mapped than any history keeps live (a huge buffer was not unmapped): the
+			// truncated table cannot match the specification's, which is the verdict wanted
+			break
+		}
 		ok := pg.Valid && pg.PageSize == w.psz && pg.PID == k.pid && pg.VAddr == k.vaddr
 		out = append(out, ab.Rec{"pid": idx(k.pid), "v": pg.VAddr / w.psz, "voff": pg.VAddr % w.psz,
 			"ppn": pg.PAddr / w.psz, "poff": pg.PAddr % w.psz, "dev": pg.DeviceID, "mig": b2i(pg.IsMigrating), "ok": b2i(ok)})
@@ -197,6 +202,82 @@ func (w *world) alloc(ctx, dev, n, rem int, unified bool) bool {
 	// an allocation beyond capacity that succeeds, or one that returns a page another mapping or a pending
 	// migration already uses, ends the history: the specification decides whether that is explicable
 	if legit || w.aliased(pt) {
+		w.dead = true
+	}
+	return true
+}
+
+// burn allocates one huge buffer and frees it at once: virtual addresses are never reused, so this moves the
+// process's virtual cursor across a power-of-two boundary (2^31, 2^32, 2^33 bytes) while few pages stay live.
+// The pages of the huge buffer are inspected here (they are too many to log): all mapped, pairwise distinct,
+// none of them already mapped before the call, each inside the target device and recorded for it, well-formed;
+// after the Free none may be left.  The specification accepts the event only if all of that holds.
+func (w *world) burn(ctx, dev, n int) bool {
+	proc := w.sc.Ctxs[ctx]
+	bytes := uint64(n) * w.psz
+	before := map[uint64]bool{}
+	for _, p := range w.dump() {
+		before[p["ppn"].(uint64)] = true
+	}
+	for _, h := range w.held {
+		before[h] = true
+	}
+	legit := !w.fitsPool(w.targets(dev), n)
+	var ptr uint64
+	if !w.call(proc, ab.Rec{"op": "Burn", "pid": proc, "dev": dev, "n": n}, legit, func() {
+		w.d.SelectGPU(w.ctxs[ctx], dev)
+		ptr = uint64(w.d.AllocateMemory(w.ctxs[ctx], bytes))
+	}) {
+		return false
+	}
+	mapped, distinct, indev, fresh, wf := 0, 1, 1, 1, 1
+	seen := make(map[uint64]bool, n)
+	onTarget := map[int]bool{}
+	for _, t := range w.targets(dev) {
+		onTarget[t] = true
+	}
+	for i := 0; i < n; i++ {
+		pg, ok := w.find(proc, ptr+uint64(i)*w.psz)
+		if !ok {
+			continue
+		}
+		mapped++
+		ppn := pg.PAddr / w.psz
+		if seen[ppn] {
+			distinct = 0
+		}
+		seen[ppn] = true
+		if before[ppn] {
+			fresh = 0
+		}
+		if d := w.devOfPage(ppn); !onTarget[d] || int(pg.DeviceID) != d {
+			indev = 0
+		}
+		if pg.PAddr%w.psz != 0 || !pg.Valid || pg.PageSize != w.psz || pg.VAddr != ptr+uint64(i)*w.psz || pg.IsMigrating {
+			wf = 0
+		}
+	}
+	w.bufs = append(w.bufs, buf{ctx: ctx, ptr: ptr, pages: n, live: false, bytes: bytes})
+	if !w.call(proc, ab.Rec{"op": "BurnFree", "pid": proc, "dev": dev, "n": n}, false, func() {
+		if err := w.d.FreeMemory(w.ctxs[ctx], driver.Ptr(ptr)); err != nil {
+			panic(err)
+		}
+	}) {
+		return false
+	}
+	left := 0
+	real := w.realOf[proc]
+	for i := 0; i < n; i++ {
+		va := ptr + uint64(i)*w.psz
+		if _, ok := w.find(proc, va); ok {
+			left++
+		} else {
+			delete(w.pt.keys, key{real, va}) // unmapped again: no need to look it up after every later call
+		}
+	}
+	w.emit("Burn", ab.Rec{"pid": proc, "ctx": ctx, "dev": dev, "n": n, "v": ptr / w.psz, "voff": ptr % w.psz,
+		"mapped": mapped, "distinct": distinct, "indev": indev, "fresh": fresh, "wf": wf, "left": left, "pt": w.dump()})
+	if legit || left > 0 {
 		w.dead = true
 	}
 	return true
@@ -496,6 +577,8 @@ func (w *world) do(op Op) {
 		w.migrate(op.B, op.Off, op.Dev)
 	case "Probe":
 		w.probe(op.Ctx, op.Dev, true)
+	case "Burn":
+		w.burn(op.Ctx, op.Dev, op.N)
 	case "Launch":
 		w.launch(op.Ctx, op.Dev)
 	case "CopyOut":
@@ -578,6 +661,9 @@ func (w *world) valid(op Op) bool {
 		return host >= 1 && host != op.Dev && w.withinCap([]int{op.Dev}, 1)
 	case "Probe":
 		return op.Dev >= 1 && op.Dev < len(w.devs) && w.devs[op.Dev].Type == "gpu"
+	case "Burn":
+		return op.Dev >= 0 && op.Dev < len(w.devs) && w.devs[op.Dev].Type != "uni" && op.N >= 1 &&
+			w.fitsPool([]int{op.Dev}, op.N)
 	case "Launch":
 		// code object + kernel arguments + packet: one page each at every supported page size; ask for one more
 		return op.Dev >= 1 && op.Dev < len(w.devs) && w.devs[op.Dev].Type == "gpu" && w.withinCap([]int{op.Dev}, 4)
@@ -625,10 +711,13 @@ func (w *world) finish() {
 
 // ------------------------------------------------------------- generator
 
-const nProfiles = 6
+const nProfiles = 7
+
+// maxDump bounds the page-table dump of one event.
+const maxDump = 4000
 
 func randomScenario(rng *rand.Rand, i int) *Scenario {
-	profile := i % nProfiles
+	profile := profileOf(i)
 	sc := &Scenario{PS: uint(12 + rng.Intn(5)), Drain: true, Tag: fmt.Sprintf("random/%d/profile%d", i, profile)}
 	ng := 1 + rng.Intn(4)
 	for g := 0; g < ng; g++ {
@@ -654,6 +743,10 @@ func randomScenario(rng *rand.Rand, i int) *Scenario {
 	switch profile {
 	case 0, 3:
 		sc.Ctxs = []int{1}
+	case 6:
+		// two processes with adjacent pids whose virtual cursors cross 2^31, 2^32 or 2^33 bytes
+		sc.Ctxs = []int{1, 2}
+		sc.PS = 16 // the largest page size of the property: fewest pages to burn
 	case 1, 5:
 		sc.Ctxs = []int{1, 1}
 	case 2:
@@ -747,10 +840,56 @@ func (w *world) randomOp(rng *rand.Rand, profile int) Op {
 	}
 }
 
+// profileOf: the buddy allocator is written for 4 KiB pages only; burning gigabytes of virtual space page by page
+// would cost a million one-page blocks per call, so the wrap profile is left to the default allocator.
+func profileOf(i int) int {
+	if buddyMode {
+		return i % (nProfiles - 1)
+	}
+	return i % nProfiles
+}
+
+// wrapPrologue: every process allocates a small buffer (it stays live), then burns virtual address space on
+// the CPU (4 GiB) so that its cursor ends a few pages before boundary 2^31 / 2^32 / 2^33 bytes; the random
+// calls that follow straddle the boundary.
+func wrapPrologue(rng *rand.Rand, sc *Scenario, i int) []Op {
+	psz := uint64(1) << sc.PS
+	boundary := []uint64{1 << 31, 1 << 32, 1 << 33}[(i/nProfiles)%3] / psz // in pages
+	cpuPages := (uint64(4) << 30) / psz
+	var ops []Op
+	for ctx := range sc.Ctxs {
+		ops = append(ops, Op{A: "Alloc", Ctx: ctx, Dev: 1, N: 1 + rng.Intn(2), Rem: rng.Intn(3)})
+	}
+	for ctx := range sc.Ctxs {
+		cursor := uint64(1 + 2) // at most: guard page + the small buffer; the exact value does not matter
+		target := boundary - uint64(rng.Intn(4))
+		for cursor < target {
+			n := target - cursor
+			if n > cpuPages-8 {
+				n = cpuPages - 8
+			}
+			ops = append(ops, Op{A: "Burn", Ctx: ctx, Dev: 0, N: int(n)})
+			cursor += n
+		}
+	}
+	return ops
+}
+
 func runRandom(rec *ab.Recorder, rng *rand.Rand, i, nops int, stats map[string]int) *Scenario {
 	sc := randomScenario(rng, i)
 	w := newWorld(rec, sc, stats)
-	profile := i % nProfiles
+	profile := profileOf(i)
+	if profile == 6 {
+		for _, op := range wrapPrologue(rng, sc, i) {
+			if w.dead {
+				break
+			}
+			if w.valid(op) {
+				sc.Ops = append(sc.Ops, op)
+				w.do(op)
+			}
+		}
+	}
 	for k := 0; k < nops && !w.dead; k++ {
 		var op Op
 		okOp := false
